@@ -218,7 +218,7 @@ def run(ctx):
             rule_text = f"if {text} then out0 is {spec_out['terms'][0]['name']}{E.weight_text(w, 3)}"
             try:
                 if i % 2:
-                    rule = fl.Rule.create(rule_text, engine)
+                    rule = E.make_rule(fl, rnd, rule_text, engine)
                 else:
                     # a rule object that already held another (weighted) text is given this one: nothing of the old text may survive
                     rule = fl.Rule.create(f"if {E.prop_text(E.gen_prop(rnd, spec_inputs[0], allow_any=False))} then out0 is {spec_out['terms'][0]['name']} with 0.250", engine)
